@@ -70,7 +70,7 @@ def run(c):
                     workers=c.pick(2, 6), timeout=3000)
     rnd = random.Random(c.seed)
     plan = c.pick([("MC_SemScen_q3", None), ("MC_SemScen_q4", 600), ("MC_SemScen_q5", 350)],
-                  [("MC_SemScen_q4", None), ("MC_SemScen_q5", None), ("MC_SemScen_t4", 6000)])
+                  [("MC_SemScen_q4", None), ("MC_SemScen_q5", None), ("MC_SemScen_t4", 4000)])
     scen = c.path("sem_scen.ndjson")
     enumerated = {}
     nscen = 0
@@ -97,18 +97,11 @@ def run(c):
     for g in ("acquire_granted_at_once", "acquire_granted_after_waiting", "acquire_refused_after_waiting",
               "acquire_refused_at_once", "warnings", "settled_with_blocked_caller"):
         c.guard(g, stats.get(g, 0))
-    r = vlib.validate_scenarios(c, "msc", "SemaphoreTrace", trace, chunks=6, max_rej=6)
+    r = vlib.validate_scenarios(c, "msc", "SemaphoreTrace", trace, chunks=6, max_rej=c.pick(8, 40))
     c.log("trace validation: %d lines, %d scenarios, %d rejected" % (r["lines"], r["scenarios"], len(r["rejections"])))
     # second opinion for every rejected scenario: run it again alone, with a longer settle time
-    confirmed, noise, per_label, not_rerun = [], 0, {}, 0
-    todo = []
-    for i, rej in enumerate(r["rejections"]):
-        lab = label(rej)
-        per_label[lab] = per_label.get(lab, 0) + 1
-        if per_label[lab] > 4:          # enough second opinions for this kind of rejection
-            not_rerun += 1
-            continue
-        todo.append((i, lab, rej))
+    confirmed, noise, not_rerun = [], 0, 0
+    confirmed_per_label = {}
 
     def second(job):
         i, lab, rej = job
@@ -127,13 +120,27 @@ def run(c):
                 rec = m.group(2)
             rej2 = dict(line=int(m.group(1)), record=rec, scenario=vlib.ndjson_read(tp))
         return lab, script, rej, rej2
-    with ThreadPoolExecutor(max_workers=4) as ex:
-        for lab, script, rej, r2 in ex.map(second, todo):
-            if r2 is not None and label(r2) == lab:
-                confirmed.append((lab, script, rej, r2))
+    # every rejected scenario gets a second run, in batches; once a kind of rejection has reproduced three times the
+    # remaining scenarios of that kind are not run again
+    todo = [(i, label(rej), rej) for i, rej in enumerate(r["rejections"])]
+    while todo:
+        batch, rest = [], []
+        for job in todo:
+            if confirmed_per_label.get(job[1], 0) >= 3:
+                not_rerun += 1
+            elif len(batch) < 8:
+                batch.append(job)
             else:
-                noise += 1
-                c.notes.append("rejection '%s' of script [%s] did not reproduce on the second run" % (lab, " ".join(map(step_str, script))))
+                rest.append(job)
+        todo = rest
+        with ThreadPoolExecutor(max_workers=4) as ex:
+            for lab, script, rej, r2 in ex.map(second, batch):
+                if r2 is not None and label(r2) == lab:
+                    confirmed.append((lab, script, rej, r2))
+                    confirmed_per_label[lab] = confirmed_per_label.get(lab, 0) + 1
+                else:
+                    noise += 1
+                    c.notes.append("rejection '%s' of script [%s] did not reproduce on the second run" % (lab, " ".join(map(step_str, script))))
     for lab, script, rej, rej2 in confirmed:
         sig = "%s/%s" % (lab, " ".join(map(step_str, script)))
         c.violation("semaphore-trace", sig,
@@ -144,6 +151,9 @@ def run(c):
         c.notes.append("%d further rejected scenarios of an already confirmed kind were not run a second time" % not_rerun)
     if r.get("unvalidated_lines"):
         c.notes.append("%d trace lines left unvalidated after repeated rejections" % r["unvalidated_lines"])
+        if not confirmed:
+            raise vlib.Infra("host too noisy: %d rejections that did not reproduce left %d trace lines unvalidated" % (
+                noise, r["unvalidated_lines"]))
     if noise > max(3, nscen // 50):
         raise vlib.Infra("host too noisy: %d of %d rejected scenarios did not reproduce" % (noise, len(r["rejections"])))
     mc = fmc.result()
